@@ -18,10 +18,26 @@ META = {
                  "bookkeeping for orientation/manifoldness, counting for Euler characteristic, field identities for "
                  "area/volume; an invariant over all operation histories for acceptance) + kernel-checked "
                  "correspondence batches on generated surfaces, tetrahedral meshes and polylines + independent oracle",
-    "level_text": "see Props.v: machine-checked theorems about the executable model of subdivision.py after the fix: "
-                  "commits (counts, directed-edge balance / orientation, area and volume identities, acceptance of every "
-                  "history on complete inputs); the statement about the mesh object passed in is refuted (known finding) "
-                  "and proved under the guard that no operation replaced the raw data.",
+    "level_text": "Machine-checked Coq theorems (coq/theories/C13/Props.v, all closed under the global context) about an "
+                  "executable model of subdivision.py after six fix: commits, whose face/edge/cell tuples, half-table keys, "
+                  "midpoint/barycentre formulas, arity tests, loop counts and enter/exit plumbing are regenerated from the "
+                  "source on every run. FULL, for all meshes/histories: documented V/E/F/C deltas of every operation and the "
+                  "Euler characteristic (for loop_subdivision: E'=2E+3F under the manifold hypotheses below); per-rewrite "
+                  "directed-edge balance (pieces carry the face's directed edges or their halves, interior ones cancel in "
+                  "opposite pairs) for quad split, fan of any n-gon, 1-to-4, 1-to-3-quads, face-centre split, lifted to whole "
+                  "refinement steps; closedness preserved; oriented manifoldness (each directed edge once, distinct in-range "
+                  "vertices) preserved by fan, 3quads and by loop_subdivision(n) for every n (together with 'no two faces on "
+                  "the same three vertices'); over any field with 2,3 invertible: new vertices are the stated "
+                  "midpoints/barycentres, pieces of a triangle are fixed positive fractions of its vector area (coplanar, "
+                  "co-oriented), vector area additive for the quad split and the fan of any polygon around any apex, signed "
+                  "volume additive (quarters/thirds) for both tetrahedral splits; every history of editor operations with "
+                  "existing element ids succeeds on every prepared surface / tetrahedral mesh. PARTIAL (guard named): the quad "
+                  "split preserves manifoldness when the cut diagonal is not joined yet; the object passed in equals the result "
+                  "when no operation replaced the raw data and its connectivity had not been queried. REFUTED (two recorded "
+                  "known findings, witnesses proved in Coq and replayed on every run): the object passed in is left "
+                  "half-updated / with stale tables; triangulate() on a manifold but non-simple quad configuration. Tested "
+                  "only (correspondence + oracle): border loops and components, conformity and face orientation of refined "
+                  "tetrahedral meshes, split_double_boundary_edges_triangles' selection rule, Python-set order effects.",
     "level_note": "Trusted: Coq kernel + vm_compute; the subdivision.py translator; the correspondence harness "
                   "(generators, driver canonicalisation, exact rational read-back of binary64 coordinates on inputs that "
                   "are multiples of 2^10*3^5*5*7). The order of a Python set (loop_subdivision's edge set) is not "
